@@ -114,6 +114,11 @@ def check(ctx, rep):
             apub = [t for t in walk(r) if util.is_call(t, "srp_internal_client::calculate_client_public_key")]
             cs = [t for t in walk(r) if util.is_call(t, "srp_internal_client::calculate_client_S")]
             good = len(draws) == 1 and apub and cs and all(strip(t[2][0]) in draws for t in apub) and all(strip(t[2][2]) in draws for t in cs)
+            if not good and not (apub and cs) and "srp-default-math" in ctx.features:
+                # the client-only internals were folded into something else: C03's end-to-end
+                # view of the constructor - the exponent of A and the `a` in S are one draw
+                from rules import c03
+                good = bool(c03.client_view(ctx).get("a_single_draw"))
         rep.check(good, "use-site", "client::SrpClientChallenge::new", "client private key a", "one PrivateKey::randomized() draw feeds A and S", "the client's private key is not a single fresh PrivateKey::randomized() draw used for both A and S")
         se = ctx.wrap.run("client::SrpClient::calculate_reconnect_values")
         good = False
